@@ -504,6 +504,21 @@ func mutate(v, mut string, arg int) string {
 			return v
 		}
 		return v[:len(v)-1-(arg%len(v))]
+	case "nonceonly", "sepnonce", "pidonly":
+		// a remember cookie cut at its own seams: only the 32-byte nonce, ';'+nonce, or only the pid part
+		b, err := base64.URLEncoding.DecodeString(v)
+		if err != nil || len(b) < 34 {
+			return v
+		}
+		switch mut {
+		case "nonceonly":
+			b = b[len(b)-32:]
+		case "sepnonce":
+			b = b[len(b)-33:]
+		default:
+			b = b[:len(b)-33]
+		}
+		return base64.URLEncoding.EncodeToString(b)
 	case "tail":
 		// the last 1..len-1 characters
 		if len(v) < 2 {
